@@ -22,6 +22,8 @@ package main
 
 import (
 	"bytes"
+	"crypto/sha256"
+	"encoding/hex"
 	"fmt"
 	"go/ast"
 	"go/parser"
@@ -822,4 +824,66 @@ func main() {
 	}
 	out.WriteString("end Canine.Generated.Pure\n")
 	fmt.Print(out.String())
+	if len(os.Args) > 2 {
+		writeKeyFacts(root, os.Args[2])
+	}
+}
+
+// writeKeyFacts: every function of the store-key files (x/*/types/key*.go, keys.go) with the SHA-256
+// of its printed declaration (comments dropped, gofmt layout).  The injectivity and prefix theorems
+// about store keys (C09, C10, C15, C17, C18) are about exactly these constructors; the obligations
+// `Cxx_store_keys_as_modelled` compare this table with the one the model was written against.
+func writeKeyFacts(root, outPath string) {
+	matches, _ := filepath.Glob(filepath.Join(root, "x", "*", "types", "key*.go"))
+	sort.Strings(matches)
+	fset := token.NewFileSet()
+	var rows []string
+	perMod := map[string][]string{}
+	var mods []string
+	var doc strings.Builder
+	for _, path := range matches {
+		if strings.HasSuffix(path, "_test.go") {
+			continue
+		}
+		f, err := parser.ParseFile(fset, path, nil, 0) // comments dropped
+		if err != nil {
+			fail("%v", err)
+		}
+		rel := strings.TrimPrefix(path, root+"/")
+		for _, d := range f.Decls {
+			fd, ok := d.(*ast.FuncDecl)
+			if !ok {
+				continue
+			}
+			var b bytes.Buffer
+			printer.Fprint(&b, fset, fd)
+			sum := sha256.Sum256(b.Bytes())
+			row := fmt.Sprintf("  (%q, %q)", rel+":"+fd.Name.Name, hex.EncodeToString(sum[:8]))
+			rows = append(rows, row)
+			mod := strings.Split(rel, "/")[1]
+			if perMod[mod] == nil {
+				mods = append(mods, mod)
+			}
+			perMod[mod] = append(perMod[mod], row)
+			fmt.Fprintf(&doc, "-- %s:%s\n", rel, fd.Name.Name)
+			for _, l := range strings.Split(b.String(), "\n") {
+				fmt.Fprintf(&doc, "--   %s\n", l)
+			}
+		}
+	}
+	var o strings.Builder
+	o.WriteString("/- GENERATED by gen/main.go (bin/facts): the store-key constructors of the custom modules, each with a\n" +
+		"fingerprint (first 8 bytes of SHA-256) of its printed declaration.  Regenerated on every run. -/\n" +
+		"namespace Canine.Generated\n\ndef keyFns : List (String × String) := [\n")
+	o.WriteString(strings.Join(rows, ",\n"))
+	o.WriteString("]\n\n")
+	for _, m := range mods {
+		fmt.Fprintf(&o, "def keyFns_%s : List (String × String) := [\n%s]\n\n", m, strings.Join(perMod[m], ",\n"))
+	}
+	o.WriteString("/- the declarations the fingerprints were taken from:\n")
+	o.WriteString(strings.ReplaceAll(doc.String(), "-/", "- /"))
+	o.WriteString("-/\n\nend Canine.Generated\n")
+	if err := os.WriteFile(outPath, []byte(o.String()), 0o644); err != nil {
+		fail("%v", err)
+	}
 }
